@@ -4,7 +4,7 @@
 -/
 import Irc.InvProofs.Defs
 
-namespace Irc
+namespace Irc.RO
 
 /-! ### generic fold lemma: a fold whose body never changes the world -/
 
@@ -62,12 +62,12 @@ theorem any_isNone_false {α β : Type} (l : List α) (F : α → Option β)
 
 /-! ### association lists: entries vs. lookup -/
 
-theorem Map.contains_of_mem {α : Type} {k : Str} {v : α} {m : Map α} (h : (k, v) ∈ m) :
+theorem map_contains_of_mem {α : Type} {k : Str} {v : α} {m : Map α} (h : (k, v) ∈ m) :
     Map.contains k m = true := by
   rw [Map.contains_iff, ← Map.mem_keys_iff]
   exact List.mem_map.mpr ⟨(k, v), h, rfl⟩
 
-theorem Map.lookup_of_mem_nodup {α : Type} {k : Str} {v : α} {m : Map α}
+theorem map_lookup_of_mem_nodup {α : Type} {k : Str} {v : α} {m : Map α}
     (hn : (Map.keys m).Nodup) (h : (k, v) ∈ m) : Map.lookup k m = some v := by
   induction m with
   | nil => simp at h
@@ -202,4 +202,185 @@ theorem chunks_len {α : Type} (n : Nat) (xs : List α) :
   · rename_i hn
     exact chunksAux_len n (by omega) _ xs
 
-end Irc
+/-! ### PRIVMSG recipients -/
+
+theorem specialRecipients_members (tt : TargetType) (ch : Channel) (nick : Str) (hr : RankMirror ch) :
+    ∀ n, n ∈ specialRecipients tt ch nick → Map.contains n ch.users = true := by
+  intro n hn
+  simp only [specialRecipients, mem_dedup, List.mem_filter, List.mem_append] at hn
+  have key : ∀ (b : Bool) (l : KSet), (∀ n, KSet.mem n l = true → ∃ m, Map.lookup n ch.users = some m ∧ True) →
+      n ∈ (if b = true then l else []) → Map.contains n ch.users = true := by
+    intro b l hl hm
+    split at hm
+    · obtain ⟨m, hm', _⟩ := hl n ((KSet.mem_iff _ _).mpr hm)
+      exact (Map.contains_iff _ _).mpr ⟨m, hm'⟩
+    · simp at hm
+  rcases hn.1 with (((hm | hm) | hm) | hm) | hm
+  · exact key _ _ (fun n h => by obtain ⟨m, h1, _⟩ := (hr.founders n).mp h; exact ⟨m, h1, trivial⟩) hm
+  · exact key _ _ (fun n h => by obtain ⟨m, h1, _⟩ := (hr.protecteds n).mp h; exact ⟨m, h1, trivial⟩) hm
+  · exact key _ _ (fun n h => by obtain ⟨m, h1, _⟩ := (hr.operators n).mp h; exact ⟨m, h1, trivial⟩) hm
+  · exact key _ _ (fun n h => by obtain ⟨m, h1, _⟩ := (hr.halfOperators n).mp h; exact ⟨m, h1, trivial⟩) hm
+  · exact key _ _ (fun n h => by obtain ⟨m, h1, _⟩ := (hr.voices n).mp h; exact ⟨m, h1, trivial⟩) hm
+
+theorem foldl_sendDisplay_w (src t : Str) (l : List Str) (x : Ctx)
+    (hk : ∀ n, n ∈ l → Map.contains n x.w.users = true) :
+    (l.foldl (fun y n => y.sendDisplay n src t) x).w = x.w := by
+  apply foldl_w_eq
+  intro y n hy hn
+  apply Ctx.sendDisplay_w_eq
+  rw [hy]; exact hk n hn
+
+
+theorem map_mem_of_lookup {α : Type} {k : Str} {v : α} {m : Map α} (h : Map.lookup k m = some v) :
+    (k, v) ∈ m := by
+  induction m with
+  | nil => simp at h
+  | cons p m ih =>
+    obtain ⟨k', v'⟩ := p
+    simp only [Map.lookup] at h
+    split at h
+    · rename_i e; subst e; simp at h; subst h; exact List.mem_cons_self ..
+    · exact List.mem_cons_of_mem _ (ih h)
+
+/-! ### a small concrete world satisfying `InvCore` (for the non-vacuity examples) -/
+namespace Ex
+
+def alice : Str := str "alice"
+def bob : Str := str "bob"
+def chan : Str := str "#c"
+
+def uAlice : User :=
+  { hostname := str "h1", name := str "al", realname := str "A", source := str "alice!~al@h1",
+    modes := { wallops := true, oper := true, invisible := true }, away := some (str "gone"),
+    channels := [chan], history := ⟨str "al", str "h1", str "A"⟩, owner := 1 }
+
+def uBob : User :=
+  { hostname := str "h2", name := str "bo", realname := str "B", source := str "bob!~bo@h2",
+    modes := {}, channels := [chan], history := ⟨str "bo", str "h2", str "B"⟩, owner := 2 }
+
+def cChan : Channel :=
+  { modes := { founders := [alice], operators := [alice], voices := [bob] }
+    users := [(alice, { founder := true, operator := true }), (bob, { voice := true })] }
+
+def conn1 : Conn :=
+  { id := 1, hostname := str "h1", nick := some alice, name := some (str "al"),
+    realname := some (str "A"), source := str "alice!~al@h1", authenticated := true,
+    hasSender := false, hasQuitSender := false, hasPingSender := false }
+
+def conn2 : Conn :=
+  { id := 2, hostname := str "h2", nick := some bob, name := some (str "bo"),
+    realname := some (str "B"), source := str "bob!~bo@h2", authenticated := true,
+    hasSender := false, hasQuitSender := false, hasPingSender := false }
+
+def w : World :=
+  { users := [(alice, uAlice), (bob, uBob)], channels := [(chan, cChan)], wallops := [alice],
+    invisibleCount := 1, operatorsCount := 1, maxUsers := 2, conns := [conn1, conn2], connsCount := 2 }
+
+def x : Ctx := { w := w }
+def cfg : Cfg := {}
+
+theorem users_cases {n : Str} {u : User} (h : Map.lookup n w.users = some u) :
+    (n = alice ∧ u = uAlice) ∨ (n = bob ∧ u = uBob) := by
+  have := map_mem_of_lookup h
+  simpa [w] using this
+
+theorem chans_cases {ch : Str} {C : Channel} (h : Map.lookup ch w.channels = some C) :
+    ch = chan ∧ C = cChan := by
+  have := map_mem_of_lookup h
+  simpa [w] using this
+
+theorem conns_cases {cn : Conn} (h : cn ∈ w.conns) : cn = conn1 ∨ cn = conn2 := by
+  simpa [w] using h
+
+theorem members_cases {n : Str} {m : ChanUserModes} (h : Map.lookup n cChan.users = some m) :
+    (n = alice ∧ m = { founder := true, operator := true }) ∨ (n = bob ∧ m = { voice := true }) := by
+  have := map_mem_of_lookup h
+  simpa [cChan] using this
+
+theorem rank (lst : KSet) (flag : ChanUserModes → Bool)
+    (h1 : ∀ n, n ∈ lst → ∃ m, Map.lookup n cChan.users = some m ∧ flag m = true)
+    (h2 : flag { founder := true, operator := true } = true → alice ∈ lst)
+    (h3 : flag { voice := true } = true → bob ∈ lst) :
+    ∀ n, KSet.mem n lst = true ↔ ∃ m, Map.lookup n cChan.users = some m ∧ flag m = true := by
+  intro n
+  rw [KSet.mem_iff]
+  constructor
+  · exact h1 n
+  · rintro ⟨m, hm, hf⟩
+    rcases members_cases hm with ⟨rfl, rfl⟩ | ⟨rfl, rfl⟩
+    · exact h2 hf
+    · exact h3 hf
+
+theorem inv : InvCore w where
+  noPanic := rfl
+  usersNodup := by decide
+  chansNodup := by decide
+  connsNodup := by decide
+  membersNodup := by
+    intro ch C h; obtain ⟨rfl, rfl⟩ := chans_cases h; decide
+  userChansNodup := by
+    intro n u h
+    rcases users_cases h with ⟨rfl, rfl⟩ | ⟨rfl, rfl⟩ <;> decide
+  authOwns := by
+    intro cn h _
+    rcases conns_cases h with rfl | rfl
+    · exact ⟨alice, uAlice, rfl, by decide, rfl⟩
+    · exact ⟨bob, uBob, rfl, by decide, rfl⟩
+  userOwned := by
+    intro n u h
+    rcases users_cases h with ⟨rfl, rfl⟩ | ⟨rfl, rfl⟩
+    · exact ⟨conn1, by simp [w], rfl, rfl, rfl⟩
+    · exact ⟨conn2, by simp [w], rfl, rfl, rfl⟩
+  memberSym := by
+    intro n u ch h
+    have key : KSet.mem ch u.channels = true ↔ ch = chan := by
+      rcases users_cases h with ⟨rfl, rfl⟩ | ⟨rfl, rfl⟩ <;>
+        simp [KSet.mem_iff, uAlice, uBob]
+    rw [key]
+    constructor
+    · rintro rfl
+      rcases users_cases h with ⟨rfl, rfl⟩ | ⟨rfl, rfl⟩
+      · exact ⟨cChan, by decide, by decide⟩
+      · exact ⟨cChan, by decide, by decide⟩
+    · rintro ⟨C, hC, _⟩; exact (chans_cases hC).1
+  memberIsUser := by
+    intro ch C n hC hn
+    obtain ⟨rfl, rfl⟩ := chans_cases hC
+    obtain ⟨m, hm⟩ := (Map.contains_iff _ _).mp hn
+    rcases members_cases hm with ⟨rfl, _⟩ | ⟨rfl, _⟩ <;> decide
+  rankMirror := by
+    intro ch C h; obtain ⟨rfl, rfl⟩ := chans_cases h
+    exact
+      { founders := rank _ (·.founder) (by decide) (by decide) (by decide)
+        protecteds := rank _ (·.prot) (by decide) (by decide) (by decide)
+        operators := rank _ (·.operator) (by decide) (by decide) (by decide)
+        halfOperators := rank _ (·.halfOper) (by decide) (by decide) (by decide)
+        voices := rank _ (·.voice) (by decide) (by decide) (by decide) }
+  noEmptyAdHoc := by
+    intro ch C h he; obtain ⟨rfl, rfl⟩ := chans_cases h; cases he
+  invisibleCount := by decide
+  operatorsCount := by decide
+  wallopsSet := by
+    intro n
+    constructor
+    · intro hn
+      have : n = alice := by simpa [KSet.mem_iff, w] using hn
+      subst this; exact ⟨uAlice, by decide, rfl⟩
+    · rintro ⟨u, hu, hw⟩
+      rcases users_cases hu with ⟨rfl, rfl⟩ | ⟨rfl, rfl⟩
+      · decide
+      · cases hw
+  maxUsers := by decide
+  resources := by
+    intro cn h ha
+    rcases conns_cases h with rfl | rfl <;> cases ha
+  slots := rfl
+  killedFlagged := by
+    intro n u h hk
+    rcases users_cases h with ⟨rfl, rfl⟩ | ⟨rfl, rfl⟩ <;> cases hk
+
+theorem live1 : Live x.w 1 := ⟨conn1, by simp [x, w], rfl⟩
+theorem auth1 : (x.conn 1).authenticated = true := by decide
+
+end Ex
+end Irc.RO
